@@ -26,6 +26,42 @@ pub fn enc_ints(v: &[isize]) -> String {
     v.iter().map(|x| x.to_string()).collect::<Vec<_>>().join(",")
 }
 
+use sakuramml::song::{Event, EventType, Song, Track};
+
+pub fn etype_code(t: &EventType) -> char {
+    match t {
+        EventType::NoteOn => 'N', EventType::NoteOff => 'F', EventType::ControllChange => 'C',
+        EventType::PitchBend => 'P', EventType::PitchBendRange => 'R', EventType::Voice => 'V',
+        EventType::Meta => 'M', EventType::SysEx => 'S', EventType::DirectSMF => 'D',
+    }
+}
+pub fn etype_of(c: &str) -> EventType {
+    match c {
+        "N" => EventType::NoteOn, "F" => EventType::NoteOff, "C" => EventType::ControllChange,
+        "P" => EventType::PitchBend, "R" => EventType::PitchBendRange, "V" => EventType::Voice,
+        "M" => EventType::Meta, "S" => EventType::SysEx, _ => EventType::DirectSMF,
+    }
+}
+/// events of one track: T:time:ch:v1:v2:v3:data  joined by ';'  (data: '-' None, 'e' empty, hex)
+pub fn enc_events(evs: &[Event]) -> String {
+    if evs.is_empty() { return "-".to_string(); }
+    evs.iter().map(|e| {
+        let d = match &e.data { None => "-".to_string(), Some(d) => if d.is_empty() { "e".to_string() } else { hex(d) } };
+        format!("{}:{}:{}:{}:{}:{}:{}", etype_code(&e.etype), e.time, e.channel, e.v1, e.v2, e.v3, d)
+    }).collect::<Vec<_>>().join(";")
+}
+pub fn dec_events(f: &str) -> Vec<Event> {
+    if f == "-" { return vec![]; }
+    f.split(';').map(|s| {
+        let p: Vec<&str> = s.split(':').collect();
+        let data = match p[6] { "-" => None, "e" => Some(vec![]), h => Some(unhex(h)) };
+        Event { etype: etype_of(p[0]), time: int(p[1]), channel: int(p[2]), v1: int(p[3]), v2: int(p[4]), v3: int(p[5]), data }
+    }).collect()
+}
+pub fn enc_tracks(song: &Song) -> String {
+    song.tracks.iter().map(|t| enc_events(&t.events)).collect::<Vec<_>>().join("/")
+}
+
 pub fn run_case(f: &[String]) -> String {
     match f[0].as_str() {
         "calc_length" => {
@@ -35,6 +71,31 @@ pub fn run_case(f: &[String]) -> String {
             // compile <src> <debug>  ->  <hex bytes> \t <log>
             let r = compile(&text(&f[1]), f[2].parse::<u32>().unwrap());
             format!("{}\t{}", hex(&r.bin), enc_text(&r.log))
+        }
+        "generate" => {
+            // generate <timebase> <tracks: events '/' events ...>  ->  hex of midi::generate
+            let mut song = Song::new();
+            song.timebase = int(&f[1]);
+            song.tracks.clear();
+            for (i, t) in f[2].split('/').enumerate() {
+                let mut trk = Track::new(song.timebase, i as isize);
+                trk.events = dec_events(t);
+                song.tracks.push(trk);
+            }
+            hex(&midi::generate(&mut song))
+        }
+        "compile_ev" => {
+            // compile_ev <src>  ->  <hex bytes> \t <timebase> \t <events per track as handed to the writer> \t <log>
+            let mut song = Song::new();
+            let src = sutoton::convert(&text(&f[1]));
+            let tokens = lexer::lex(&mut song, &src, 0);
+            runner::exec(&mut song, &tokens);
+            runner::flush_tie_notes(&mut song);
+            song.play_from_all_track();
+            song.play_from = -1;
+            let evs = enc_tracks(&song);
+            let bin = midi::generate(&mut song);
+            format!("{}\t{}\t{}\t{}", hex(&bin), song.timebase, evs, enc_text(&song.get_logs_str()))
         }
         k => format!("UNKNOWN-KIND:{}", k),
     }
